@@ -183,7 +183,8 @@ func c07Judge(c *mon.Ctx, aText, bText string, o OptSet) {
 	c.Input("options", o.Name)
 	c.Feature("opt:" + o.Name)
 	a, b := ref.MustJSON(aText), ref.MustJSON(bText)
-	d := ReadJ(aText).Diff(ReadJ(bText), o.O()...)
+	mkA, mkB := operand(c, aText, "a", 0.15), operand(c, bText, "b", 0.1)
+	d := mkA().Diff(mkB(), o.O()...)
 	hs := Hunks(d)
 	diffFeatures(c, hs)
 	if len(hs) == 0 {
@@ -223,7 +224,7 @@ func c07Judge(c *mon.Ctx, aText, bText string, o OptSet) {
 	}
 	for k := range hs {
 		sub := make(jd.Diff, 0, len(d)-1)
-		d2 := ReadJ(aText).Diff(ReadJ(bText), o.O()...) // fresh values for every leg
+		d2 := mkA().Diff(mkB(), o.O()...) // fresh values for every leg
 		sub = append(sub, d2[:k]...)
 		sub = append(sub, d2[k+1:]...)
 		c.Feature("leave_one_out_patches")
@@ -248,15 +249,86 @@ func c07Judge(c *mon.Ctx, aText, bText string, o OptSet) {
 	c.Sample(extra)
 }
 
+// c07Precision judges a diff made under Precision(eps): a hunk at a key path
+// must not mention a sub-document that is equal within the tolerance in a and
+// b, must change the state it applies to by more than the tolerance, and no
+// hunk may be left out.
+func c07Precision(c *mon.Ctx, aText, bText string, o OptSet) {
+	c.Input("a", aText)
+	c.Input("b", bText)
+	c.Input("options", o.Name)
+	c.Feature("opt:" + o.Name)
+	a, b := ref.MustJSON(aText), ref.MustJSON(bText)
+	d := ReadJ(aText).Diff(ReadJ(bText), o.O()...)
+	hs := Hunks(d)
+	diffFeatures(c, hs)
+	if len(hs) == 0 {
+		return
+	}
+	c.Nontrivial(joinKey(aText, bText, o.Name))
+	extra := map[string]any{"diff": ref.HunksString(hs)}
+	state := ref.Clone(a)
+	for k, h := range hs {
+		keysOnly := true
+		for _, el := range h.Path {
+			if el.Kind != ref.KKey {
+				keysOnly = false
+			}
+		}
+		if !keysOnly {
+			c.Skip("hunk below an array index")
+			return
+		}
+		c.Feature("precision_hunks_checked")
+		av, _, okA := ref.Navigate(a, h.Path)
+		bv, _, okB := ref.Navigate(b, h.Path)
+		if okA && okB && !ref.IsVoid(av) && !ref.IsVoid(bv) && ref.EqPrec(av, bv, o.Eps) {
+			extra["hunk"] = h.String()
+			c.Violation(fmt.Sprintf("hunk %d mentions a sub-document that is equal within the tolerance in a and b", k), extra)
+			return
+		}
+		next, err := ref.RefPatch(state, hs[k:k+1], ref.Dev{})
+		if err != nil {
+			extra["hunk"] = h.String()
+			c.Violation(fmt.Sprintf("hunk %d does not describe the document it applies to: %v", k, err), extra)
+			return
+		}
+		if ref.EqPrec(next, state, o.Eps) {
+			extra["hunk"] = h.String()
+			c.Violation(fmt.Sprintf("hunk %d is a no-op within the tolerance", k), extra)
+			return
+		}
+		state = next
+	}
+	for k := range hs {
+		d2 := ReadJ(aText).Diff(ReadJ(bText), o.O()...)
+		sub := append(append(jd.Diff{}, d2[:k]...), d2[k+1:]...)
+		var P jd.JsonNode
+		var err error
+		if pan := mon.Safe(func() { P, err = ReadJ(aText).Patch(sub) }); pan != "" || err != nil || P == nil {
+			continue
+		}
+		c.Feature("precision_leave_one_out")
+		if ref.EqPrec(Plain(P), b, o.Eps) {
+			extra["hunk"] = hs[k].String()
+			c.Violation(fmt.Sprintf("hunk %d is redundant within the tolerance: the diff without it still turns a into b", k), extra)
+			return
+		}
+	}
+	c.Sample(extra)
+}
+
 func init() {
 	p := &mon.Property{
 		ID: "C07",
 		Rule: "cases are (a, b, option set) as in C01 over list, SET, MULTISET, SetKeys and MERGE, biased to multi-hunk diffs; each hunk is judged against a and b " +
 			"(removed values present in a only, added in b only, exact surplus counts for multisets, key hunks remove a@path and add b@path and these differ), " +
 			"stepwise no-op detection with the reference interpreter, and every leave-one-out sub-diff is applied with the real Patch; " +
+			"operands are fresh parses or, one time in seven, the same documents as left behind by a Patch; under Precision / MERGE+Precision hunks at key paths must not mention sub-documents equal within the tolerance; " +
 			"non-trivial = non-empty diff; distinct = distinct (a, b, options)",
 		Floors: map[string]int{"hunks_checked": 50000, "leave_one_out_diffs": 10000, "leave_one_out_patches": 50000, "checked_set_hunk": 3000,
-			"checked_multiset_hunk": 3000, "checked_merge_hunk": 3000, "checked_key_hunk": 5000, "hunk_list": 5000},
+			"checked_multiset_hunk": 3000, "checked_merge_hunk": 3000, "checked_key_hunk": 5000, "hunk_list": 5000,
+			"a_is_patch_result": 3000, "b_is_patch_result": 3000, "precision_hunks_checked": 5000, "precision_leave_one_out": 3000},
 		Assumptions: []string{
 			"paths through list indices are relative to intermediate document states; those hunks are judged by stepwise reference interpretation (applies, changes the state) and by leave-one-out",
 			"keyed members (SetKeys): a member object added by a set hunk is identified by its key tuple, not by its whole value",
@@ -305,6 +377,30 @@ func init() {
 				a, b := PairFor(c.R, o, prof)
 				c.Feature("zero_sign_pairs")
 				c07Judge(c, ref.ToJSON(a), ref.ToJSON(b), o)
+			},
+		})
+	}
+	for _, o := range []OptSet{OptPrecision(0.1), OptMergePrec} {
+		o := o
+		p.Strata = append(p.Strata, mon.Stratum{
+			Name: "precision/" + o.Name,
+			N:    qt(6000, 400000),
+			Run: func(c *mon.Ctx, i int) {
+				// numbers moved by less and by more than the tolerance; strict mode on documents
+				// without arrays (every hunk sits at a key path), merge mode with arrays too
+				prof := gen.PObjects.With(func(p *gen.Profile) {
+					p.Scalars = append(append([]any{}, numbersNear...), "a", true)
+					p.PArr = 0
+					if o.Merge {
+						p.PArr = 0.4
+					}
+				})
+				a := gen.Doc(c.R, prof)
+				b := jitterNumbers(c.R, a, o.Eps)
+				if c.R.Chance(0.6) {
+					b = gen.Mutate(c.R, prof, b)
+				}
+				c07Precision(c, ref.ToJSON(a), ref.ToJSON(b), o)
 			},
 		})
 	}
